@@ -247,7 +247,8 @@ class PropertyRun:
                 return True
         except Exception:
             self.replay_errors = getattr(self, 'replay_errors', [])
-            self.replay_errors.append(traceback.format_exc()[-800:])
+            if len(self.replay_errors) < 3:
+                self.replay_errors.append(traceback.format_exc()[-800:])
         return False
 
     def real_function(self, qualname):
